@@ -361,6 +361,26 @@ class Pure:
             return 'notsent' if len(pr.comments) == n else 'posted-despite-no_comment'
         return 'posted' if len(pr.comments) == n + 1 else 'nothing'
 
+    def send_twice(self, text, policy, between=None):
+        """The real _send_comment twice in a row on ONE stub pull request: the second call sees what the first
+        one actually posted (not what the harness would have written).  Returns the two outcomes and the number of
+        comments posted."""
+        pr = self.make_pr([])
+        settings = SimpleNamespace(no_comment=False, interactive=False, robot=ROBOT)
+        outs = []
+        for k in range(2):
+            n = len(pr.comments)
+            try:
+                self.pu._send_comment(settings, pr, text, policy)
+                outs.append('posted' if len(pr.comments) == n + 1 else 'nothing')
+            except self.ex.CommentAlreadyExists:
+                outs.append('suppressed')
+            except ValueError:
+                outs.append('valueerror')
+            if k == 0 and between is not None:
+                pr.comments.append(StubComment(author=USERS[1], text=between, id=len(pr.comments)))
+        return outs, [c.text for c in pr.comments if c.author == ROBOT]
+
     def notify(self, comments, cls, arg, no_comment=False):
         pr = self.make_pr(comments)
         n = len(pr.comments)
